@@ -1,4 +1,40 @@
 # C14 registry entry: see lib/registry.py for the field meanings
-from lib.registry import PERF_STUB  # noqa: E402  (registry imports this file by path; lib is on sys.path via the driver)
-
-PROP = {}
+PROP = {'rule': 'rapid-generated cases. A case = one webhook-mutated pod (1-5 regular + 0-2 init containers; batch-cpu request/limit in '
+         '{missing, 0, 1..12, 999, 1000, 1001, 1500, 1..64000, around 256000 (cpu.shares maximum), up to 2^40}, batch-memory '
+         'request/limit in {missing, 0, 1, 4Ki, .. 2^50}; request <= limit; pod shapes free / all-limited / tiny (sub-minimum quotas) / '
+         'one-unlimited; the extended-resource-spec annotation exactly as the mutating webhook writes it) with a QoS marking (label BE / '
+         'label LS,LSR,LSE,SYSTEM / no label, optionally BE written in an annotation or batch priority class) and a rule configuration '
+         '(CFS quota unset / set directly / derived from a NodeSLO suppress strategy; normalization ratio unset / set directly in '
+         '{-1, 0.5, 1, 1.0001, 1.5, 3, [1,10]} / parsed from the node annotation incl. missing and illegal values). Every case is driven '
+         'through the plugin three ways: runtime-proxy requests (FromProxy), NRI requests (FromNri), reconciler PodMeta (FromReconciler; '
+         'per-cgroup-file entry points or the aggregated ones). non-trivial = pod treated as BE AND >= 2 containers handed to the '
+         'pod-level hook AND (a container whose quota is below the 1000 us minimum with CFS quota enabled OR a container without cpu or '
+         'memory limit). distinct = FNV-64 fingerprint of the pod and rule description.',
+ 'assumptions': ['pkg/koordlet/util/perf_group/perf_group_linux.go is replaced (build overlay only) by a cgo-free stand-in with the same '
+                 'exported surface, because libpfm4 headers are not installed; no oracle touches perf counters',
+                 'best-effort = pod label koordinator.sh/qosClass=BE (the only marking apis/extension.GetQoSClassByAttrs reads; its '
+                 'annotations argument is unused in this tree). Pods without the label (BE only in an annotation / priority class, or kube '
+                 'BestEffort by default) are accepted both untouched and fully configured as BE, nothing in between',
+                 'webhook-mutated pods are built directly from the documented contract of pkg/webhook/pod/mutating (functions unexported in '
+                 'another package): integer batch quantities, request <= limit, annotation lists the regular containers that declare at '
+                 'least one batch resource, absent limit = absent key',
+                 'cpu amounts are capped at 2^40 milli-cores per container so that milli*100000 cannot overflow int64 (not a real node size)',
+                 'ratio scaling: ceil(quota/ratio) is computed in float64 by the code; accepted interval x(1-2^-50) <= got <= x(1+2^-50)+1 '
+                 'with x = quota/ratio in exact rational arithmetic; a scaled value below 1000 us may also be re-clamped to 1000',
+                 'one rule configuration per case on a fresh plugin (sequences of ratio updates closer than ratioDiffEpsilon are not explored)'],
+ 'units': [{'name': 'batchresource',
+            'pkg': 'pkg/koordlet/runtimehooks/hooks/batchresource',
+            'files': ['C14/c14_batchresource_test.go'],
+            'tests': [{'run': 'TestVerifC14Hooks', 'quick': 10000, 'thorough': 25000}]}],
+ 'manifest': {'technique': 'property-based testing (rapid): generated webhook-mutated pods x rule configurations, driven through the '
+                           'proxy, NRI and reconciler entry points, with an independent re-statement of the cgroup conversions as oracle '
+                           'and output-vs-output relations between pod level and container level',
+              'text': 'Generated-input search: for every BE pod each injected container value (cpu.shares, cfs quota, memory limit) must '
+                      'equal the re-stated standard conversion of that container\'s declared batch amounts (-1 when undeclared, quota '
+                      'divided by a normalization ratio above 1), the pod-level values must equal the same conversion of the sums over the '
+                      'containers handed to the hook (unlimited as soon as one is), the pod must never be tighter than any container the hook '
+                      'configured on the same path (regular and init containers) and must equal their sum up to rounding and minimum '
+                      'clamps; pods labelled with another QoS class must come back with an empty response. Exploration, not proof: '
+                      'absence of violations over the sampled cases.',
+              'note': 'BE = QoS label; mutated pods constructed from the webhook contract rather than by calling the webhook; float64 '
+                      'ceil tolerance of 1 us; perf_group cgo stub in the build overlay; rapid\'s PRNG and shrinker'}}
